@@ -441,6 +441,11 @@ class SymFloat:
     def __float__(self):
         raise EngineLimit("symbolic float used at a C boundary")
 
+    def __bool__(self):
+        # float truthiness: false exactly for +0.0 and -0.0 (NaN is truthy)
+        mag = z3.Extract(self.nbits - 2, 0, self.e)
+        return Engine.cur.branch(mag != 0)
+
     __hash__ = None  # type: ignore
 
     def _nope(self, *a):
@@ -750,8 +755,8 @@ class ForkingRange:
                 raise WorkBound("iteration budget exhausted")
 
     def __len__(self):
-        if type(self.stop) is SymInt:
-            raise EngineLimit("len(range(symbolic))")
+        if type(self.stop) is SymInt or type(self.start) is SymInt:
+            raise TypeError("len() of a range with a symbolic bound")  # list() then falls back to plain iteration
         return len(range(self.start, self.stop, self.step))
 
 
